@@ -48,6 +48,7 @@ class Check:
         self.explanation = ""
         self.rule_text: Dict[str, str] = {}
         self.extra: Dict[str, Any] = {}
+        self.floor_failures: List[str] = []
 
     # -- recording -----------------------------------------------------------
     def rule(self, rid: str, text: str) -> None:
@@ -66,7 +67,9 @@ class Check:
 
     def floor(self, rule: str, what: str, count: int, minimum: int) -> None:
         if count < minimum:
-            raise AnalysisError(
+            # decided in finish(): a violation explaining the shortfall wins; a
+            # shortfall with no violation is an analysis error, never a pass
+            self.floor_failures.append(
                 "%s: %s matched %d instance(s), below the confirmed floor %d "
                 "(anchor vanished or analysis broken)" % (rule, what, count, minimum))
         self.extra.setdefault("instance_counts", {})["%s %s" % (rule, what)] = count
@@ -180,7 +183,13 @@ def finish(chk: Check, t0: float, seed: int, audit: Optional[Dict[str, Any]] = N
           "%d functions analysed [%s tier, %.2fs]"
           % (chk.prop, len(chk.obs), n_ok, len(known_hit), len(new),
              len(chk.functions), chk.tier, time.time() - t0))
-    return 1 if new else 0
+    if new:
+        return 1
+    if chk.floor_failures:
+        for ff in chk.floor_failures:
+            print("ANALYSIS-ERROR: %s" % ff)
+        return 2
+    return 0
 
 
 def _spread(obs: List[Obligation], n: int) -> List[Obligation]:
